@@ -1138,6 +1138,10 @@ func (dns *Msg) Copy() *Msg { return dns.CopyTo(new(Msg)) }
 
 // CopyTo copies the contents to the provided message using a deep-copy and returns the copy.
 func (dns *Msg) CopyTo(r1 *Msg) *Msg {
+	// Read the sections of the source before the first write to the destination:
+	// r1 may be dns itself.
+	answer, ns, extra := dns.Answer, dns.Ns, dns.Extra
+
 	r1.MsgHdr = dns.MsgHdr
 	r1.Compress = dns.Compress
 
@@ -1146,20 +1150,20 @@ func (dns *Msg) CopyTo(r1 *Msg) *Msg {
 		r1.Question = cloneSlice(dns.Question)
 	}
 
-	rrArr := make([]RR, len(dns.Answer)+len(dns.Ns)+len(dns.Extra))
-	r1.Answer, rrArr = rrArr[:0:len(dns.Answer)], rrArr[len(dns.Answer):]
-	r1.Ns, rrArr = rrArr[:0:len(dns.Ns)], rrArr[len(dns.Ns):]
-	r1.Extra = rrArr[:0:len(dns.Extra)]
+	rrArr := make([]RR, len(answer)+len(ns)+len(extra))
+	r1.Answer, rrArr = rrArr[:0:len(answer)], rrArr[len(answer):]
+	r1.Ns, rrArr = rrArr[:0:len(ns)], rrArr[len(ns):]
+	r1.Extra = rrArr[:0:len(extra)]
 
-	for _, r := range dns.Answer {
+	for _, r := range answer {
 		r1.Answer = append(r1.Answer, r.copy())
 	}
 
-	for _, r := range dns.Ns {
+	for _, r := range ns {
 		r1.Ns = append(r1.Ns, r.copy())
 	}
 
-	for _, r := range dns.Extra {
+	for _, r := range extra {
 		r1.Extra = append(r1.Extra, r.copy())
 	}
 
